@@ -118,7 +118,36 @@ var ruleO1 = &Rule{
 			for _, body := range bodies {
 				// handed-over expressions (by text) in this body and in closures defined in the same declaration
 				handed := map[string]token.Pos{}
-				alias := map[types.Object]string{} // local → field text it aliases
+				alias := map[types.Object]string{}      // local → field text it aliases
+				carries := map[types.Object][]string{} // local holding a composite literal → slice fields / variables stored in it
+				// slice-typed fields / variables placed directly in a (pointer to a) composite literal
+				var litSources func(e ast.Expr) []string
+				litSources = func(e ast.Expr) []string {
+					e = ast.Unparen(e)
+					if ue, ok := e.(*ast.UnaryExpr); ok && ue.Op == token.AND {
+						e = ast.Unparen(ue.X)
+					}
+					cl, ok := e.(*ast.CompositeLit)
+					if !ok {
+						return nil
+					}
+					var out []string
+					for _, el := range cl.Elts {
+						v := el
+						if kv, ok := el.(*ast.KeyValueExpr); ok {
+							v = kv.Value
+						}
+						switch ast.Unparen(v).(type) {
+						case *ast.SelectorExpr, *ast.Ident:
+							if isSlice(v) {
+								out = append(out, c.normText(v))
+							}
+						case *ast.CompositeLit, *ast.UnaryExpr:
+							out = append(out, litSources(v)...)
+						}
+					}
+					return out
+				}
 				inspectOwn := func(f func(n ast.Node) bool) {
 					ast.Inspect(body, func(n ast.Node) bool {
 						if fl, ok := n.(*ast.FuncLit); ok && fl.Body != body {
@@ -145,6 +174,16 @@ var ruleO1 = &Rule{
 								}
 							}
 						}
+						// L := &T{F, …} (the slice travels inside an object built here)
+						if len(x.Lhs) == 1 && len(x.Rhs) == 1 && x.Tok == token.DEFINE {
+							if id, ok := x.Lhs[0].(*ast.Ident); ok {
+								if src := litSources(x.Rhs[0]); len(src) > 0 {
+									if obj := info.Defs[id]; obj != nil {
+										carries[obj] = src
+									}
+								}
+							}
+						}
 					}
 					return true
 				})
@@ -165,9 +204,15 @@ var ruleO1 = &Rule{
 								if src, ok := alias[info.Uses[id]]; ok {
 									handed[src] = id.Pos()
 								}
+								for _, src := range carries[info.Uses[id]] {
+									handed[src] = id.Pos()
+								}
 							}
 							return true
 						})
+						for _, src := range litSources(e) {
+							handed[src] = e.Pos()
+						}
 					}
 					return true
 				})
